@@ -1,7 +1,7 @@
 (* C10 — Assigning one element changes that element and nothing else. Statements only. *)
 From Coq Require Import ZArith List Bool Lia.
 Import ListNotations.
-From XO Require Import Slots Strides BufOps Types Format Check LayoutProofs Update UpdateProofs UpdateSize.
+From XO Require Import Slots Strides BufOps Types Format Check LayoutProofs Update UpdateProofs UpdateSize UpdateFrame.
 Open Scope Z_scope.
 
 (* on the value tree: the assigned element becomes the (capacity-preserving) new value, every
@@ -24,6 +24,15 @@ Proof. exact retag_string_keeps_size. Qed.
 Theorem C10_extent_kept : forall t v p x v' img,
   assign t v p x = Some v' -> enc t v = Some img -> exists img', enc t v' = Some img' /\ len img' = len img.
 Proof. exact assign_keeps_extent. Qed.
+(* byte level: the image after an honoured assignment is the image before with the sub-image of the
+   assigned element (same length) replaced in place; header words, offset tables, sizes, padding and
+   every other element are untouched -- every type, every depth, every axis order *)
+Theorem C10_frame_of_assignment : forall t v p x v' img,
+  assign t v p x = Some v' -> enc t v = Some img ->
+  exists st old x' a b img', vget v p = Some old /\ sub_ty t p = Some st /\ retag old x = Some x' /\
+    enc st old = Some a /\ enc st x' = Some b /\ len a = len b /\ enc t v' = Some img' /\
+    exists pre post, img = pre ++ a ++ post /\ img' = pre ++ b ++ post.
+Proof. exact assign_frame. Qed.
 Theorem C10_history_sound : forall steps t v size n, check_updates t v size n steps = None -> conforms t v size steps.
 Proof. exact check_updates_sound. Qed.
 
@@ -43,3 +52,4 @@ Print Assumptions C10_assign_local.
 Print Assumptions C10_string_keeps_size.
 Print Assumptions C10_history_sound.
 Print Assumptions C10_extent_kept.
+Print Assumptions C10_frame_of_assignment.
